@@ -11,6 +11,7 @@ import (
 	"sort"
 	"strconv"
 	"strings"
+	"unicode"
 	"unicode/utf8"
 
 	"github.com/cespare/xxhash/v2"
@@ -268,6 +269,48 @@ func init() {
 		return (*ptr(args[0])).(structure)[0].(string)
 	})
 
+	// ---- prometheus/common model.ParseDuration (native re-implementation of the
+	// documented grammar: ([0-9]+y)?([0-9]+w)?([0-9]+d)?([0-9]+h)?([0-9]+m)?([0-9]+s)?([0-9]+ms)?)
+	reg("github.com/prometheus/common/model.ParseDuration", func(fr *frame, args []value) value {
+		d, err := parsePromDuration(str(args[0]))
+		if err != nil {
+			return tuple{int64(0), fr.i.errorString(err.Error())}
+		}
+		return tuple{d, iface{}}
+	})
+
+	// ---- the embedded Prometheus engine and the query counter are modelled: the
+	// reference engine itself is never interpreted (its answers are the reference by definition)
+	reg("github.com/prometheus/prometheus/promql.NewEngine", func(fr *frame, args []value) value {
+		t := fr.i.prog.ImportedPackage("github.com/prometheus/prometheus/promql").Type("Engine").Object().Type()
+		var cell value = zero(t)
+		return &cell
+	})
+	for _, n := range []string{"NewInstantQuery", "NewRangeQuery"} {
+		reg("(*github.com/prometheus/prometheus/promql.Engine)."+n, func(fr *frame, args []value) value {
+			t := fr.i.prog.ImportedPackage("github.com/prometheus/prometheus/promql").Type("query").Object().Type()
+			var cell value = zero(t)
+			fr.i.counters["fallback-queries"]++
+			return tuple{iface{t: types.NewPointer(t), v: &cell}, iface{}}
+		})
+	}
+	reg("(*github.com/prometheus/prometheus/promql.Engine).SetQueryLogger", func(fr *frame, args []value) value { return nil })
+	reg("(github.com/prometheus/client_golang/prometheus/promauto.Factory).NewCounterVec", func(fr *frame, args []value) value {
+		t := fr.i.prog.ImportedPackage("github.com/prometheus/client_golang/prometheus").Type("CounterVec").Object().Type()
+		var cell value = zero(t)
+		return &cell
+	})
+	reg("(*github.com/prometheus/client_golang/prometheus.CounterVec).WithLabelValues", func(fr *frame, args []value) value {
+		t := fr.i.prog.ImportedPackage("github.com/prometheus/client_golang/prometheus").Type("counter").Object().Type()
+		var cell value = structure{strings.Join(stringsOf(args[1]), ",")}
+		return iface{t: types.NewPointer(t), v: &cell}
+	})
+	reg("(*github.com/prometheus/client_golang/prometheus.counter).Inc", func(fr *frame, args []value) value {
+		lbl := (*ptr(args[0])).(structure)[0].(string)
+		fr.i.counters["counter:"+lbl]++
+		return nil
+	})
+
 	// ---- go-kit log: levels are the identity, Log is a no-op
 	for _, n := range []string{"Error", "Debug", "Info", "Warn"} {
 		reg("github.com/go-kit/log/level."+n, func(fr *frame, args []value) value { return args[0] })
@@ -360,6 +403,58 @@ func init() {
 		}
 		return tuple{n, iface{}}
 	})
+	reg("unicode/utf8.DecodeRuneInString", func(fr *frame, args []value) value {
+		r, n := utf8.DecodeRuneInString(str(args[0]))
+		return tuple{r, n}
+	})
+	reg("unicode/utf8.DecodeLastRuneInString", func(fr *frame, args []value) value {
+		r, n := utf8.DecodeLastRuneInString(str(args[0]))
+		return tuple{r, n}
+	})
+	reg("unicode/utf8.RuneLen", func(fr *frame, args []value) value { return utf8.RuneLen(args[0].(rune)) })
+	reg("unicode/utf8.ValidRune", func(fr *frame, args []value) value { return utf8.ValidRune(args[0].(rune)) })
+	reg("unicode.IsLetter", func(fr *frame, args []value) value { return unicode.IsLetter(args[0].(rune)) })
+	reg("unicode.IsDigit", func(fr *frame, args []value) value { return unicode.IsDigit(args[0].(rune)) })
+	reg("unicode.IsSpace", func(fr *frame, args []value) value { return unicode.IsSpace(args[0].(rune)) })
+	reg("unicode.IsUpper", func(fr *frame, args []value) value { return unicode.IsUpper(args[0].(rune)) })
+	reg("unicode.IsLower", func(fr *frame, args []value) value { return unicode.IsLower(args[0].(rune)) })
+	reg("unicode.ToLower", func(fr *frame, args []value) value { return unicode.ToLower(args[0].(rune)) })
+	reg("unicode.ToUpper", func(fr *frame, args []value) value { return unicode.ToUpper(args[0].(rune)) })
+	reg("strings.IndexRune", func(fr *frame, args []value) value { return strings.IndexRune(str(args[0]), args[1].(rune)) })
+	reg("strings.ContainsRune", func(fr *frame, args []value) value { return strings.ContainsRune(str(args[0]), args[1].(rune)) })
+	reg("strings.ContainsAny", func(fr *frame, args []value) value { return strings.ContainsAny(str(args[0]), str(args[1])) })
+	reg("strings.IndexAny", func(fr *frame, args []value) value { return strings.IndexAny(str(args[0]), str(args[1])) })
+	reg("strings.LastIndex", func(fr *frame, args []value) value { return strings.LastIndex(str(args[0]), str(args[1])) })
+	reg("strings.LastIndexByte", func(fr *frame, args []value) value { return strings.LastIndexByte(str(args[0]), args[1].(byte)) })
+	reg("strings.Trim", func(fr *frame, args []value) value { return strings.Trim(str(args[0]), str(args[1])) })
+	reg("strings.TrimLeft", func(fr *frame, args []value) value { return strings.TrimLeft(str(args[0]), str(args[1])) })
+	reg("strings.TrimRight", func(fr *frame, args []value) value { return strings.TrimRight(str(args[0]), str(args[1])) })
+	reg("strings.TrimPrefix", func(fr *frame, args []value) value { return strings.TrimPrefix(str(args[0]), str(args[1])) })
+	reg("strings.TrimSuffix", func(fr *frame, args []value) value { return strings.TrimSuffix(str(args[0]), str(args[1])) })
+	reg("strings.Fields", func(fr *frame, args []value) value { return fromStrings(strings.Fields(str(args[0]))) })
+	reg("strings.Count", func(fr *frame, args []value) value { return strings.Count(str(args[0]), str(args[1])) })
+	reg("strings.Title", func(fr *frame, args []value) value { return strings.Title(str(args[0])) })
+	reg("strconv.Unquote", func(fr *frame, args []value) value {
+		r, err := strconv.Unquote(str(args[0]))
+		if err != nil {
+			return tuple{r, fr.i.errorString(err.Error())}
+		}
+		return tuple{r, iface{}}
+	})
+	reg("strconv.ParseInt", func(fr *frame, args []value) value {
+		r, err := strconv.ParseInt(str(args[0]), args[1].(int), args[2].(int))
+		if err != nil {
+			return tuple{r, fr.i.errorString(err.Error())}
+		}
+		return tuple{r, iface{}}
+	})
+	reg("strconv.ParseUint", func(fr *frame, args []value) value {
+		r, err := strconv.ParseUint(str(args[0]), args[1].(int), args[2].(int))
+		if err != nil {
+			return tuple{r, fr.i.errorString(err.Error())}
+		}
+		return tuple{r, iface{}}
+	})
 	reg("unicode/utf8.ValidString", func(fr *frame, args []value) value { return utf8.ValidString(str(args[0])) })
 	reg("unicode/utf8.RuneCountInString", func(fr *frame, args []value) value { return utf8.RuneCountInString(str(args[0])) })
 	reg("sort.Strings", func(fr *frame, args []value) value {
@@ -373,6 +468,22 @@ func init() {
 	// ---- hashing (concrete)
 	reg("github.com/cespare/xxhash/v2.Sum64", func(fr *frame, args []value) value { return xxhash.Sum64(bytesOf(args[0])) })
 	reg("github.com/cespare/xxhash/v2.Sum64String", func(fr *frame, args []value) value { return xxhash.Sum64String(str(args[0])) })
+
+	reg("github.com/cespare/xxhash/v2.New", func(fr *frame, args []value) value {
+		var cell value = structure{xxhash.New()}
+		return &cell
+	})
+	xd := func(v value) *xxhash.Digest { return (*ptr(v)).(structure)[0].(*xxhash.Digest) }
+	reg("(*github.com/cespare/xxhash/v2.Digest).Write", func(fr *frame, args []value) value {
+		n, _ := xd(args[0]).Write(bytesOf(args[1]))
+		return tuple{n, iface{}}
+	})
+	reg("(*github.com/cespare/xxhash/v2.Digest).WriteString", func(fr *frame, args []value) value {
+		n, _ := xd(args[0]).WriteString(str(args[1]))
+		return tuple{n, iface{}}
+	})
+	reg("(*github.com/cespare/xxhash/v2.Digest).Sum64", func(fr *frame, args []value) value { return xd(args[0]).Sum64() })
+	reg("(*github.com/cespare/xxhash/v2.Digest).Reset", func(fr *frame, args []value) value { xd(args[0]).Reset(); return nil })
 
 	// ---- sync
 	reg("(*sync.Once).Do", func(fr *frame, args []value) value { fr.i.onceDo(fr, ptr(args[0]), args[1]); return nil })
@@ -845,4 +956,40 @@ func (i *interpreter) findMethod(t types.Type, name string) *ssa.Function {
 		return nil
 	}
 	return i.prog.MethodValue(sel)
+}
+
+var promDurationRE = regexp.MustCompile("^(([0-9]+)y)?(([0-9]+)w)?(([0-9]+)d)?(([0-9]+)h)?(([0-9]+)m)?(([0-9]+)s)?(([0-9]+)ms)?$")
+
+func parsePromDuration(s string) (int64, error) {
+	switch s {
+	case "0":
+		return 0, nil
+	case "":
+		return 0, fmt.Errorf("empty duration string")
+	}
+	m := promDurationRE.FindStringSubmatch(s)
+	if m == nil {
+		return 0, fmt.Errorf("not a valid duration string: %q", s)
+	}
+	var dur int64
+	add := func(pos int, mult int64) error {
+		if m[pos] == "" {
+			return nil
+		}
+		n, _ := strconv.Atoi(m[pos])
+		dur += int64(n) * mult
+		return nil
+	}
+	const ms = int64(1000000)
+	add(2, 1000*60*60*24*365*ms)
+	add(4, 1000*60*60*24*7*ms)
+	add(6, 1000*60*60*24*ms)
+	add(8, 1000*60*60*ms)
+	add(10, 1000*60*ms)
+	add(12, 1000*ms)
+	add(14, ms)
+	if dur < 0 {
+		return 0, fmt.Errorf("duration out of range")
+	}
+	return dur, nil
 }
